@@ -1058,7 +1058,45 @@ func verifC09Exec(op string) string {
 	return "bad-op"
 }
 
+// two map keys addressed in the same run where one name is the other plus a digit/letter (CAM1 / CAM10): the
+// variables of the shorter name must not be shadowed by those of the longer one
+var verifC09KeyPairs = [][2]string{{"cam1", "cam10"}, {"cam", "cam2"}, {"cam1", "cam1a"}, {"a", "ab"}, {"x9", "x90"}, {"cam", "camera"}}
+
+func verifC09PairOp(k int) string {
+	pair := verifC09KeyPairs[(k/4)%len(verifC09KeyPairs)]
+	inFile := k%2 == 1    // the paths exist in the file with other values
+	swap := (k/2)%2 == 1  // order of the variables
+	var kvs []verifC09KV
+	base := map[string]any{}
+	want := map[string]any{}
+	for j, name := range pair {
+		if inFile {
+			base[name] = map[string]any{"maxReaders": 1, "runOnReady": "old"}
+		}
+		want[name] = map[string]any{"maxReaders": 5 + j, "runOnReady": "cmd --n=" + name, "record": true}
+		kvs = append(kvs,
+			verifC09KV{"MTX_PATHS_" + strings.ToUpper(name) + "_MAXREADERS", strconv.Itoa(5 + j)},
+			verifC09KV{"MTX_PATHS_" + strings.ToUpper(name) + "_RUNONREADY", "cmd --n=" + name},
+			verifC09KV{"MTX_PATHS_" + strings.ToUpper(name) + "_RECORD", "yes"})
+	}
+	if swap {
+		for a, b := 0, len(kvs)-1; a < b; a, b = a+1, b-1 {
+			kvs[a], kvs[b] = kvs[b], kvs[a]
+		}
+	}
+	bb, _ := json.Marshal(map[string]any{"paths": base})
+	fb, _ := json.Marshal(map[string]any{"paths": want})
+	if !inFile {
+		bb = []byte("{}")
+	}
+	return fmt.Sprintf("list name=%s n=2 mode=pair full=1 base=%s file=%s env=%s", verifutil.HexS(kvs[0].k), verifutil.Hex(bb), verifutil.Hex(fb), verifC09FmtEnv(kvs))
+}
+
 func verifC09Gen(r *verifutil.Rand, i int, thorough bool) []string {
+	if i < 4*len(verifC09KeyPairs) {
+		return []string{verifC09PairOp(i)}
+	}
+	i -= 4 * len(verifC09KeyPairs)
 	if i < len(verifC09Order) {
 		o := verifC09Order[i]
 		return []string{fmt.Sprintf("order name=%s base=%s env=%s want=%s", verifutil.HexS(o[0]), verifutil.HexS(o[1]), verifutil.HexS(o[2]), verifutil.HexS(o[3]))}
